@@ -32,6 +32,58 @@ import (
 
 const c19Marker = "ZQXJ"
 
+// value strings that are well-formed for SOME format validator (an address of the other family, an almost-date):
+// validators have branches that only such inputs reach. They occur in no schema.
+var c19Specials = []string{"198.51.100.77", "2001:db8::77", "2020-02-30", "198.51.100.77/33"}
+
+// Go values outside the JSON-shaped set that visitJSON handles ("unhandled value of type %T"): a named string type, a
+// map[string]string, a struct, a map[any]any with a non-string key — each carrying a marker
+type c19Token string
+type c19Struct struct{ Name string }
+
+func c19GoForm(kind string, marker string) any {
+	switch kind {
+	case "namedString":
+		return c19Token(marker)
+	case "mapStringString":
+		return map[string]string{"k": marker}
+	case "struct":
+		return c19Struct{Name: marker}
+	case "structPtr":
+		return &c19Struct{Name: marker}
+	case "mapAnyAnyIntKey":
+		return map[any]any{1: marker}
+	case "stringer":
+		return fmt.Errorf("%s", marker)
+	}
+	return marker
+}
+
+var c19GoKinds = []string{"namedString", "mapStringString", "struct", "structPtr", "mapAnyAnyIntKey", "stringer"}
+
+// c19Typed replaces every {"$go": kind, "s": marker} node of a case value by the Go value it stands for
+func c19Typed(v any) any {
+	switch x := v.(type) {
+	case map[string]any:
+		if k, ok := x["$go"].(string); ok {
+			m, _ := x["s"].(string)
+			return c19GoForm(k, m)
+		}
+		out := make(map[string]any, len(x))
+		for k, e := range x {
+			out[k] = c19Typed(e)
+		}
+		return out
+	case []any:
+		out := make([]any, len(x))
+		for i, e := range x {
+			out[i] = c19Typed(e)
+		}
+		return out
+	}
+	return plainValue(v)
+}
+
 func init() {
 	hx.Register(&hx.Prop{
 		ID: "C19",
@@ -57,6 +109,7 @@ func init() {
 	// string formats beyond the three registered by default, so that every shape of validator error is exercised:
 	// a built-in validator returning a bare *SchemaError, and a user validator that WRAPS such an error.
 	openapi3.DefineIPv4Format()
+	openapi3.DefineIPv6Format()
 	ip := openapi3.NewIPValidator(true)
 	openapi3.DefineStringFormatValidator("x-wrapped-ip", openapi3.NewCallbackValidator(func(v string) error {
 		if err := ip.Validate(v); err != nil {
@@ -107,6 +160,23 @@ func genC19(ctx *hx.Ctx, emit0 func(hx.Case)) {
 	n := 0
 	for _, v := range c01Values {
 		vals = append(vals, markerize(v, &n))
+	}
+	for _, sp := range c19Specials {
+		vals = append(vals, sp, []any{sp}, map[string]any{"a": sp})
+	}
+	// typed Go values the visitor does not handle, at depth 0–2, under schemas that reach the type switch (no model: markers only)
+	for _, kind := range c19GoKinds {
+		g := map[string]any{"$go": kind, "s": c19Marker + "7typed"}
+		for _, v := range []any{g, []any{g}, map[string]any{"a": g}, map[string]any{"a": []any{1, g}}} {
+			for _, sch := range []map[string]any{
+				{"type": "string"}, {"type": "object"}, {"minLength": 1}, {"enum": []any{"x"}}, {"not": map[string]any{"type": "integer"}},
+				{"items": map[string]any{"type": "string", "maxLength": 1}}, {"properties": map[string]any{"a": map[string]any{"type": "string"}}},
+				{"additionalProperties": map[string]any{"items": map[string]any{"maxLength": 1}}}, {"anyOf": []any{map[string]any{"type": "string"}, map[string]any{"items": map[string]any{"type": "string"}}}},
+				{"oneOf": []any{map[string]any{"type": "string"}}, "properties": map[string]any{"a": map[string]any{"minLength": 1}}},
+			} {
+				emit0(hx.Case{"schema": sch, "value": v, "nomodel": true})
+			}
+		}
 	}
 	for i, c := range c01DiscCases() {
 		if !ctx.Thorough() && i%2 == 1 {
@@ -318,6 +388,9 @@ func runC19(c hx.Case) any {
 		return map[string]any{"kind": "schema-unmarshal-error", "err": err.Error()}
 	}
 	v := plainValue(c["value"])
+	if jbool(c, "nomodel") {
+		v = c19Typed(c["value"])
+	}
 	ed := s.VisitJSON(v)
 	em := s.VisitJSON(v, openapi3.MultiErrors())
 	e2 := s.VisitJSON(v, openapi3.SetSchemaErrorMessageCustomizer(reasonOnly))
@@ -392,13 +465,24 @@ func runC19(c hx.Case) any {
 		}()
 	}
 	leaks := []any{}
+	leaky := func(t string) bool {
+		if strings.Contains(t, c19Marker) {
+			return true
+		}
+		for _, sp := range c19Specials {
+			if strings.Contains(t, sp) {
+				return true
+			}
+		}
+		return false
+	}
 	for _, r := range reasons {
-		if strings.Contains(r, c19Marker) {
+		if leaky(r) {
 			leaks = append(leaks, "reason: "+r)
 		}
 	}
 	for _, m := range msgs {
-		if strings.Contains(m, c19Marker) {
+		if leaky(m) {
 			leaks = append(leaks, "message "+m)
 		}
 	}
@@ -526,6 +610,9 @@ func cmpC19(c hx.Case, impl any, reply map[string]any) hx.Verdict {
 	if l := jlist(im["leaks"]); len(l) > 0 {
 		v.IS = false
 		v.Detail = fmt.Sprintf("a marker planted in the value appears in: %v", l[0])
+	}
+	if jbool(c, "nomodel") {
+		return v // Go values outside `J`: the marker search is the whole check
 	}
 	// spec side: the model's own fragments must not be value strings (proved; evaluated here as the oracle)
 	if jbool(model, "valueFrag") {
